@@ -107,7 +107,7 @@ def rule_r3(ctx) -> RuleResult:
         "core.Wtp._finalize_expand.magic_repl": ctx.fn("core.Wtp._finalize_expand.magic_repl"),
     }
     for name, node in consumers.items():
-        arms = {k for k in X.kind_arms(node) if not k.startswith("%")}
+        arms = {k for k in X.kind_arms(node, ctx=ctx) if not k.startswith("%")}
         relfile = ctx.index.mod(name.split(".")[0]).relpath
         if arms == accepted:
             rr.ok(name, "dispatches " + ",".join(sorted(arms)), {"consumer": name, "kinds": sorted(arms)})
@@ -227,7 +227,7 @@ def _arm_features(ctx, arm: list) -> dict:
 def rule_r5(ctx) -> RuleResult:
     rr = RuleResult("C03.R5", "the template / argument / link / URL arms of magic_fn process their arguments the same way", min_instances=4)
     fn = ctx.fn("parser.magic_fn")
-    arms = X.kind_arms(fn)
+    arms = X.kind_arms(fn, ctx=ctx)
     retype = {"TEMPLATE": {"PARSER_FN"}}
     feats = {}
     for k in ("T", "A", "L"):
